@@ -42,6 +42,7 @@ class HashTable:
             Number of significant digits to keep for the hash table
         '''
         self.hash_sensitivity = np.power(10, int(s))
+        self.cachedData = {}
 
     def _hashingFunction(self, x: np.array, T: np.array):
         '''
